@@ -6,71 +6,87 @@ Local Open Scope N_scope.
 
 (* On every well-formed type, the string reflect.Type.String returns under llgo (the string the
    compiler stores, with the star the ExtraStar flag stands for put back by the run time) is the
-   string Go documents: package NAME qualification, embedded fields, variadic ...T, interface {},
-   func with and without results, chan directions, map, array, generic instances with
-   import-path qualified type arguments.  [wf false] excludes exactly the shapes for which the
-   next theorems show the strings to differ, plus struct/func/non-empty interface literals as
-   type arguments (the types.TypeString fallback is not modelled). *)
-Theorem str_eq_go_partial : forall t, wf false t = true -> llgo_str t = go_type_string t.
+   string Go documents: package NAME qualification, struct tags quoted, embedded fields, variadic
+   ...T, interface {}, func with and without results, chan directions including chan (<-chan T),
+   map (pointer keys included), array, defined pointer types, generic instances with import-path
+   qualified type arguments (main for package main).  fx = true is the code that exists; the same
+   statement holds for the code before the repairs (fx = false) on its smaller well-formed set.
+   [wf true false] excludes struct/func/non-empty interface literals as type arguments (the
+   types.TypeString fallback is not modelled). *)
+Theorem str_eq_go_partial : forall fx t, wf fx false t = true -> llgo_str fx t = go_type_string t.
 Proof. exact llgo_str_eq_go. Qed.
 Print Assumptions str_eq_go_partial.
 
 Example str_eq_go_nontrivial :
   let emb := TNamed (Some (lit "verifprog/sub/inner", lit "pkgb")) (lit "Item") TsNil
                     (TStruct (FsCons (lit "ID") false [] (TBasic 2) FsNil)) in
-  let t := TStruct (FsCons (lit "A") false [] (TPtr (TPtr (TBasic 2)))
+  let t := TStruct (FsCons (lit "A") false (lit "json:""a""") (TPtr (TPtr (TBasic 2)))
                    (FsCons (lit "Item") true [] (TPtr emb)
                    (FsCons (lit "f") false [] (TFunc (TsCons (TBasic 2) (TsCons (TSlice (TBasic 17)) TsNil))
-                                                      (TsCons (TBasic 2) (TsCons (TChan DRecv emb) TsNil)) true)
+                                                      (TsCons (TBasic 2) (TsCons (TChan DBoth (TChan DRecv emb)) TsNil)) true)
                    (FsCons (lit "g") false []
                       (TNamed (Some (lit "verifprog/sub/inner", lit "pkgb")) (lit "Pair")
-                              (TsCons (TBasic 17) (TsCons (TSlice (TPtr emb)) TsNil)) TCut)
+                              (TsCons (TBasic 17) (TsCons (TSlice (TPtr t_P)) TsNil)) TCut)
                    (FsCons (lit "i") false []
-                      (TIface (MsCons (lit "M") true None (TFunc (TsCons (TBasic 8) TsNil) TsNil false)
+                      (TIface (MsCons (lit "M") true None (TFunc (TsCons (TMap (TPtr (TBasic 8)) t_P) TsNil) TsNil false)
                               (MsCons (lit "x") false (Some (lit "main")) (TFunc TsNil (TsCons (TBasic 1) TsNil) false) MsNil)))
                       FsNil))))) in
-  wf false t = true /\
-  go_type_string t = lit "struct { A **int; *pkgb.Item; f func(int, ...string) (int, <-chan pkgb.Item); g pkgb.Pair[string,[]*verifprog/sub/inner.Item]; i interface { M(uint8); main.x() bool } }".
+  wf true false t = true /\
+  go_type_string t = lit "struct { A **int ""json:\""a\""""; *pkgb.Item; f func(int, ...string) (int, chan (<-chan pkgb.Item)); g pkgb.Pair[string,[]*main.P]; i interface { M(map[*uint8]main.P); main.x() bool } }".
 Proof. split; vm_compute; reflexivity. Qed.
 
-(* type P *int: llgo prints *main.P, and **main.P for *P *)
-Theorem str_named_pointer_refuted : exists t, llgo_str t <> go_type_string t /\ llgo_str t = lit "*main.P".
-Proof. exact named_pointer_refuted. Qed.
-Print Assumptions str_named_pointer_refuted.
+(* The five shapes the repairs concern are well-formed now and were refuted before: *)
+Theorem str_repaired_shapes :
+  wf true false t_repaired = true /\ wf false false t_repaired = false /\
+  llgo_str true t_repaired = go_type_string t_repaired /\ llgo_str false t_repaired <> go_type_string t_repaired.
+Proof. exact repaired_wf. Qed.
+Print Assumptions str_repaired_shapes.
 
-(* struct tags are not part of llgo's string *)
-Theorem str_struct_tag_refuted :
-  llgo_str t_tagged = lit "struct { A int }" /\
+(* before the repair, type P *int printed *main.P, and **main.P for *P *)
+Theorem str_named_pointer_unfixed_refuted :
+  exists t, llgo_str false t <> go_type_string t /\ llgo_str false t = lit "*main.P".
+Proof. exact named_pointer_refuted. Qed.
+Print Assumptions str_named_pointer_unfixed_refuted.
+
+(* before the repair, struct tags were not part of llgo's string *)
+Theorem str_struct_tag_unfixed_refuted :
+  llgo_str false t_tagged = lit "struct { A int }" /\
   go_type_string t_tagged = lit "struct { A int ""json:\""a\"""" }".
 Proof. exact struct_tag_strings. Qed.
-Print Assumptions str_struct_tag_refuted.
+Print Assumptions str_struct_tag_unfixed_refuted.
 
-(* chan (<-chan int) loses its parentheses *)
-Theorem str_chan_parens_refuted :
-  llgo_str t_chanchan = lit "chan <-chan int" /\ go_type_string t_chanchan = lit "chan (<-chan int)".
+(* before the repair, chan (<-chan int) lost its parentheses *)
+Theorem str_chan_parens_unfixed_refuted :
+  llgo_str false t_chanchan = lit "chan <-chan int" /\ go_type_string t_chanchan = lit "chan (<-chan int)".
 Proof. exact chan_parens_strings. Qed.
-Print Assumptions str_chan_parens_refuted.
+Print Assumptions str_chan_parens_unfixed_refuted.
 
-(* map[*int]string prints as map[int]string: the key uses Str, not realStr *)
-Theorem str_pointer_key_refuted :
-  llgo_str t_ptrkey = lit "map[int]string" /\ go_type_string t_ptrkey = lit "map[*int]string".
+(* before the repair, map[*int]string printed as map[int]string *)
+Theorem str_pointer_key_unfixed_refuted :
+  llgo_str false t_ptrkey = lit "map[int]string" /\ go_type_string t_ptrkey = lit "map[*int]string".
 Proof. exact pointer_key_strings. Qed.
-Print Assumptions str_pointer_key_refuted.
+Print Assumptions str_pointer_key_unfixed_refuted.
 
-(* a type of package main as type argument is qualified with the module path, Go says main *)
-Theorem str_typearg_main_refuted :
-  llgo_str t_G_T = lit "main.G[verifprog.T]" /\ go_type_string t_G_T = lit "main.G[main.T]".
+(* before the repair, a type of package main as type argument was qualified with the module path *)
+Theorem str_typearg_main_unfixed_refuted :
+  llgo_str false t_G_T = lit "main.G[verifprog.T]" /\ go_type_string t_G_T = lit "main.G[main.T]".
 Proof. exact typearg_main_strings. Qed.
-Print Assumptions str_typearg_main_refuted.
+Print Assumptions str_typearg_main_unfixed_refuted.
 
 (* flags: Named is Go's definition; ExtraStar is the parity of the pointer chain *)
 Theorem tflag_named_agrees : forall t, llgo_named t = go_named t.
 Proof. exact tflag_named_eq_go. Qed.
 Print Assumptions tflag_named_agrees.
 
-Theorem tflag_extrastar_parity : forall t, es t = xorb (ptr_odd t) (es (ptr_base t)).
+Theorem tflag_extrastar_parity : forall fx t, es fx t = xorb (ptr_odd t) (es fx (ptr_base t)).
 Proof. exact es_parity. Qed.
 Print Assumptions tflag_extrastar_parity.
+
+(* a defined type never carries ExtraStar (so the flag is computed without looking through
+   declarations, and type N *N terminates) *)
+Theorem tflag_named_no_extrastar : forall pkg name targs und, es true (TNamed pkg name targs und) = false.
+Proof. exact es_named_fixed. Qed.
+Print Assumptions tflag_named_no_extrastar.
 
 (* method tables: sorted by Id, a permutation of the method set (so duplicate-free when the
    Ids are), with the exported count of the set *)
